@@ -2,7 +2,7 @@
    that the model reproduces (agrees = true) from a well-formed initial mode set satisfies every
    clause of step_ok.  Hence on guarded KSeq cases verdict 2 cannot occur, and a predicate failure
    always comes with a model mismatch (verdict 3). *)
-From SC Require Import Base.Prelude Electric.Model Electric.ModelProofs Electric.C19Judge.
+From SC Require Import Base.Prelude Electric.Model Electric.ModelProofs Electric.Config Electric.ConfigProofs Electric.UpdateOpts Electric.UpdateOptsProofs Electric.C19Judge.
 
 (* ------------------------------------------------------------------ reflection *)
 Lemma optz_eqb_eq : forall a b : option Z, option_eqb Z.eqb a b = true <-> a = b.
@@ -112,12 +112,13 @@ Definition obs_of (sr : state * res) : obs :=
   mkObs (rcode (snd sr)) (rret (snd sr)) (modes (fst sr)) (active (fst sr)) (normal_of (modes (fst sr))).
 
 Section model_step.
+Context {a0 : emode}.
 Variables (s : state) (now : Z) (o : op).
-Hypothesis I : Inv s.
+Hypothesis I : InvG a0 s.
 Let sr := step s now o.
 Let ob := obs_of sr.
 
-Lemma I' : Inv (fst sr).
+Lemma I' : InvG a0 (fst sr).
 Proof. apply inv_step. exact I. Qed.
 
 Lemma k_normal_model : k_normal ob = true.
@@ -304,7 +305,7 @@ Proof.
   apply emode_eqb_eq in H4. apply oemode_eqb_eq in H5. subst. reflexivity.
 Qed.
 
-Lemma replay_steps_ok : forall steps s, Inv s -> replay s steps = true ->
+Lemma replay_steps_ok {a0} : forall steps s, InvG a0 s -> replay s steps = true ->
   steps_ok (modes s) (active s) (changed s) steps = true.
 Proof.
   induction steps as [|[[now o] ob] rest IH]; intros s I H; [reflexivity|].
@@ -312,7 +313,7 @@ Proof.
   apply Bool.andb_true_iff in H. destruct H as [Hm Hr].
   apply obs_matches_eq in Hm. subst ob. cbn [steps_ok].
   pose proof (step_ok_model s now o I) as S. rewrite E in S. rewrite S. cbn [andb].
-  assert (I2 : Inv s') by (pose proof (inv_step s now o I) as X; rewrite E in X; exact X).
+  assert (I2 : InvG a0 s') by (pose proof (inv_step s now o I) as X; rewrite E in X; exact X).
   specialize (IH s' I2 Hr). cbn [obs_of fst snd omodes oactive ocode].
   pose proof (step_changed true true s now o) as Ch. fold step in Ch. rewrite E in Ch. cbn [fst snd] in Ch.
   rewrite <- Ch. exact IH.
@@ -359,4 +360,77 @@ Proof.
     + rewrite (judge_sound_seq _ _ _ G A). cbn. discriminate.
     + destruct (C19_ok (KSeq initial o0 steps)); cbn; discriminate.
   - destruct (agrees (KSeq initial o0 steps)); cbn; discriminate.
+Qed.
+
+(* ------------------------------------------------------------------ histories from a configured model *)
+Lemma cfg_ok_normal : forall opts, cfg_ok opts = true -> normal_count (cfg_records opts) <= 1.
+Proof.
+  intros opts H. unfold cfg_ok in H. apply Bool.andb_true_iff in H. destruct H as [_ H].
+  apply Z.leb_le in H. rewrite normal_count_normals. exact H.
+Qed.
+
+(* every guarded history on a model built from ANY option list, reproduced by the model, satisfies
+   the property predicate (a predicted panic of NewModel has no history) *)
+Theorem judge_sound_cfg : forall opts panicked o0 steps evclk,
+  C19_guard (KCfg opts panicked o0 steps evclk) = true -> agrees (KCfg opts panicked o0 steps evclk) = true ->
+  C19_ok (KCfg opts panicked o0 steps evclk) = true.
+Proof.
+  intros opts panicked o0 steps evclk G A. cbn [C19_guard] in G. cbn [agrees] in A. cbn [C19_ok].
+  apply Bool.andb_true_iff in G. destruct G as [G _].
+  destruct (new_model opts) as [s0|] eqn:N.
+  - apply Bool.andb_true_iff in A. destruct A as [A _].
+    apply Bool.andb_true_iff in A. destruct A as [A A2].
+    apply Bool.andb_true_iff in A. destruct A as [A0 A1].
+    apply Bool.negb_true_iff in A0. subst panicked. cbn [orb].
+    pose proof (new_model_inv opts s0 N (cfg_ok_normal opts G)) as I.
+    pose proof (new_model_state opts s0 N) as [_ [_ [_ Ch]]].
+    apply obs_matches_eq in A1. subst o0. cbn [obs_of fst snd omodes oactive].
+    apply Bool.andb_true_iff. split.
+    + apply Z.leb_le. rewrite <- normal_count_normals. apply (inv_normal _ I).
+    + rewrite <- Ch. apply (replay_steps_ok _ s0 I A2).
+  - apply Bool.andb_true_iff in A. destruct A as [A _]. rewrite A. reflexivity.
+Qed.
+
+(* ------------------------------------------------------------------ UpdateMode with write options *)
+Lemma kstore_eqb_eq : forall a b, kstore_eqb a b = true -> a = b.
+Proof.
+  induction a as [|[k x] r IH]; destruct b as [|[k' y] r']; cbn; intros H; try discriminate; [reflexivity|].
+  apply Bool.andb_true_iff in H. destruct H as [H Hr].
+  apply Bool.andb_true_iff in H. destruct H as [Hk Hx]. cbn in Hk, Hx.
+  apply String.eqb_eq in Hk. apply emode_eqb_eq in Hx. subst. f_equal. apply IH. exact Hr.
+Qed.
+
+Lemma normals_le1 : forall l, (zlen (normals l) <=? 1) = true <-> (ncount l <= 1)%nat.
+Proof. intros l. rewrite Z.leb_le. unfold zlen, normals, ncount. lia. Qed.
+
+Theorem judge_sound_opt : forall l m w code ret l',
+  C19_guard (KOpt l m w code ret l') = true -> agrees (KOpt l m w code ret l') = true ->
+  C19_ok (KOpt l m w code ret l') = true.
+Proof.
+  intros l m w code ret l' G A. cbn [C19_guard] in G. cbn [agrees] in A. cbn [C19_ok].
+  apply Bool.andb_true_iff in G. destruct G as [G G3].
+  apply Bool.andb_true_iff in G. destruct G as [G1 G2].
+  assert (W : wf_store l).
+  { split; [apply keyedb_keyed; exact G1|]. split; [apply distinct_NoDup; exact G2|apply normals_le1; exact G3]. }
+  pose proof (update_w_wf l m w W) as [K [ND N]].
+  pose proof (update_w_returns_id l m w) as R.
+  destruct (update_w true l m w) as [[ml mc] mr] eqn:E. cbn [fst] in K, ND, N.
+  apply Bool.andb_true_iff in A. destruct A as [A A3].
+  apply Bool.andb_true_iff in A. destruct A as [A1 A2].
+  apply kstore_eqb_eq in A1. apply Z.eqb_eq in A2. apply oemode_eqb_eq in A3. subst.
+  apply Bool.andb_true_iff. split.
+  { apply Bool.andb_true_iff. split; [apply Bool.andb_true_iff; split|].
+    - apply keyedb_keyed; exact K.
+    - apply NoDup_distinct. exact ND.
+    - apply normals_le1. exact N. }
+  destruct ret as [b|]; [|reflexivity]. apply String.eqb_eq.
+  (* a returned mode comes with code 0 *)
+  assert (Z0 : code = 0).
+  { unfold update_w in E.
+    destruct (mnormal m && writes_normal (w_mask w) && other_normal (mid m) (bodies l)); [inversion E|].
+    destruct (negb (mask_valid (w_mask w))); [inversion E|].
+    destruct (negb (mask_valid (w_reset w))); [inversion E|].
+    destruct (match kfind (mid m) l with Some b => Some b | None => if w_create w then Some blank else None end);
+      inversion E; reflexivity. }
+  subst code. apply (R l' b eq_refl).
 Qed.
